@@ -1,8 +1,8 @@
 //! C15 — client transports deliver each answer to its own request, exactly once.
 //!
 //! Engine: `mc::envx::explore` — every environment-answer sequence with at
-//! most k non-default answers (k = 2 quick, 3 thorough), each execution on a
-//! fresh tokio current-thread runtime with the clock paused.
+//! most k non-default answers, each execution on a fresh tokio current-thread
+//! runtime with the clock paused (see `main` for the passes of each tier).
 //!
 //! The harness owns the scheduler: the real transport future and the real
 //! request futures are polled by hand (own wakers, `tokio::task::unconstrained`
@@ -10,16 +10,37 @@
 //! quiescent" (no woken future left). The runtime never parks, therefore the
 //! paused clock never auto-advances: virtual time moves only through explicit
 //! `tokio::time::advance` steps chosen by the environment. All sockets are
-//! in-memory mocks driven by the `envx` chooser.
+//! in-memory mocks; every answer of a mock (what the peer sends next, whether
+//! a write/connect/send succeeds, whether time passes) is an `envx` choice.
+//!
+//! Oracle (per execution, all written here from the property text):
+//!  * Ok(m): m is byte-identical to a message the mock delivered, no message
+//!    is handed to more callers than it was delivered times, m carries an ID
+//!    the subject put on the wire for THIS caller, QR=1, and the caller's
+//!    question (or is a header-only error);
+//!  * a matching answer delivered on a healthy connection/socket to a pending
+//!    request completes that request with exactly that message at the next
+//!    quiescence;
+//!  * Err only with an environmental cause (fault, close, stray/non-matching
+//!    message, elapsed time);
+//!  * where timeouts live on the tokio clock (dgram, multi_stream,
+//!    dgram_stream): once start + budget has elapsed the request is complete;
+//!  * every non-cancelled request is complete at the end; nothing panics;
+//!  * dgram_stream: a matching TC=1 datagram is followed by a stream attempt
+//!    and the TC datagram is never the caller's result.
 //!
 //! Transports covered: stream, dgram, dgram_stream, multi_stream.
-//! Not covered: redundant, load_balancer (random probing ⇒ executions are not
-//! reproducible), `Queries` seqx (type is private, no hook allowed).
+//! Not covered: redundant, load_balancer (random probing => executions are not
+//! reproducible), the `Queries` table in isolation (type is private; it is
+//! driven through the stream transport instead, including slot recycling).
+//! stream.rs measures its response and idle timeouts with std::time::Instant,
+//! which the paused tokio clock does not move: every stream scenario ends by
+//! an answer, an error or EOF, never by the response timeout.
 use bytes::Bytes;
 use domain::base::Message;
 use domain::net::client::protocol::{AsyncConnect, AsyncDgramRecv, AsyncDgramSend};
 use domain::net::client::request::{
-    Error, GetResponse, RequestMessage, RequestMessageMulti, SendRequest,
+    Error, RequestMessage, RequestMessageMulti, SendRequest,
 };
 use domain::net::client::{dgram, dgram_stream, multi_stream, stream};
 use mc::envx::{explore, Chooser};
@@ -828,7 +849,7 @@ impl<'a> Core<'a> {
         let outcome = format!("{}|{}|{}", self.tname, self.cfg, self.req_status());
         g.outcomes.distinct(fnv(outcome.as_bytes()));
         if dev > 0 {
-            g.stats.distinct(fnv(format!("{}|{}|{:?}", self.tname, self.cfg, ch.choices()).as_bytes()));
+            g.stats.distinct(fnv(format!("{}|{}|{}|{:?}", self.tname, self.cfg, g.all_cuts.load(Ordering::Relaxed), ch.choices()).as_bytes()));
         }
         self.counters.insert(format!("{}.executions", self.tname), 1);
         *self.counters.entry(format!("{}.deviations.{dev}", self.tname)).or_insert(0) += 1;
@@ -837,7 +858,9 @@ impl<'a> Core<'a> {
             let key = fnv(format!("{}|{}|{:?}|{}", self.tname, self.cfg, ch.choices(), g.all_cuts.load(Ordering::Relaxed)).as_bytes());
             let mut sm = g.samples.lock().unwrap();
             if sm.len() < 8 || sm.keys().next_back().map(|k| key < *k).unwrap_or(true) {
-                sm.insert(key, json!({"transport": self.tname, "cfg": self.cfg, "choices": ch.describe(), "log": self.log, "outcome": self.req_status()}));
+                // logs of the datagram transports contain the random request IDs: leave them out
+                let log = if self.tname == "stream" || self.tname == "multi_stream" { json!(self.log) } else { json!("(omitted: contains random IDs; use --replay)") };
+                sm.insert(key, json!({"transport": self.tname, "cfg": self.cfg, "choices": ch.describe(), "log": log, "outcome": self.req_status()}));
                 while sm.len() > 8 {
                     let last = *sm.keys().next_back().unwrap();
                     sm.remove(&last);
@@ -981,7 +1004,7 @@ async fn run_stream(g: &Global, cfg: &StreamCfg, ch: Arc<Mutex<Chooser>>) {
         let next_unsub = (0..core.reqs.len()).find(|i| !core.reqs[*i].submitted);
         let mut menu: Vec<SAct> = Vec::new();
         let submit_now = match next_unsub {
-            Some(i) => i < cfg.wave1 || open.len() <= 1 || !healthy,
+            Some(i) => i != cfg.wave1 || open.len() <= 1 || !healthy,
             None => false,
         };
         let deliver_default = !submit_now && healthy && !open.is_empty();
@@ -1489,7 +1512,7 @@ async fn run_dgram(g: &Global, cfg: &DgramCfg, ch: Arc<Mutex<Chooser>>) {
         core.transitions += 1;
 
         // deliver a datagram to waiting[wi]; expectation if it is the matching answer
-        let mut deliver = |core: &mut Core, wi: usize, msg: Vec<u8>, what: String| {
+        let deliver = |core: &mut Core, wi: usize, msg: Vec<u8>, what: String| {
             let w = &waiting[wi];
             core.note(format!("peer -> caller {} (id {}): {what}", w.req, w.id));
             core.delivered.push(Delivered { bytes: msg.clone(), udp: true });
@@ -2021,10 +2044,14 @@ fn stream_cfgs() -> Vec<StreamCfg> {
 
 fn dgram_cfgs() -> Vec<DgramCfg> {
     let mut v = Vec::new();
-    for plan in [vec![0], vec![0, 0], vec![0, 1]] {
+    for plan in [vec![0], vec![0, 0], vec![0, 1], vec![0, 0, 1]] {
         for retries in [0u8, 2] {
             for silent in [false, true] {
-                let pars: &[usize] = if plan.len() > 1 { &[100, 1] } else { &[100] };
+                let pars: &[usize] = match plan.len() {
+                    1 => &[100],
+                    2 => &[100, 1],
+                    _ => &[2], // three callers, two permits
+                };
                 for &max_par in pars {
                     v.push(DgramCfg { plan: plan.clone(), retries, silent, max_par });
                 }
@@ -2138,13 +2165,22 @@ fn main() {
             "evaluations": evals,
             "distinct_nontrivial": g.stats.distinct_count(),
             "distinct_outcomes": g.outcomes.distinct_count(),
-            "rule": "one evaluation = one complete execution of the real transport against the mock peer; non-trivial = at least one non-default environment answer, distinct by (transport, config, choice vector)",
+            "rule": "one evaluation = one complete execution of the real transport against the mock peer; non-trivial = at least one non-default environment answer, distinct by (transport, config, choice vector); states = distinct quiescent harness-visible states (request statuses, peer view of outstanding IDs, connection health); transitions = environment steps executed on the real code",
             "exhaustive": !capped_any,
-            "deviation_bound": bound,
+            "tier_thorough": g.thorough,
+            "max_deviation_bound": bound,
             "per_config": per_cfg,
             "counters": g.stats.counters_json(),
             "samples": g.samples.lock().unwrap().values().cloned().collect::<Vec<_>>(),
         }),
-        &[],
+        &[
+            "at most 3 deviations from the default environment per execution (2 in quick); at most 3 concurrent requests (one 6-request two-wave stream case with 4 concurrent)",
+            "stream: net/client/stream.rs measures response and idle timeouts with std::time::Instant, so the response timeout is NOT exercised under the paused clock; every stream scenario ends by answer, error or EOF; 'Err within the budget' is checked only for dgram, multi_stream and dgram_stream",
+            "redundant and load_balancer are not covered (rand-based probing makes executions irreproducible); the private Queries table is driven only through the stream transport",
+            "random request IDs (dgram) are read back from the bytes written; stale/wrong IDs sent by the mock are forced to differ from the current ID so the execution structure does not depend on the random draw",
+            "multi_stream/dgram_stream: virtual time advances in 64 s steps (>= any random retry delay), so retry jitter does not influence outcomes; connect refusal is offered only with a single caller (a second caller's NewConn inside the random error window would be nondeterministic)",
+            "the caller index is carried in the Z/AD/CD header bits of the request (untouched by the transports, irrelevant for matching) so the mock maps frames to callers exactly even for identical questions",
+            "mock sockets are in-memory; real sockets, TLS and kernel buffering are out of scope",
+        ],
     );
 }
